@@ -47,6 +47,60 @@ pub mod event_loop;
 /// Task join abstraction and impl.
 pub mod join;
 
+/// Verification access to the crate-private selector.
+#[cfg(all(feature = "verif", unix))]
+pub mod verif_selector {
+    use super::selector::{Event, EventIterator, Events, Poller, Selector};
+    use std::ffi::c_int;
+    use std::os::fd::AsRawFd;
+    use std::time::Duration;
+
+    /// A private poller driven directly by the verification harness.
+    #[derive(Debug)]
+    pub struct VPoller(Poller);
+
+    impl VPoller {
+        /// Create a poller.
+        pub fn new() -> std::io::Result<Self> {
+            Poller::new().map(Self)
+        }
+        /// The epoll descriptor behind the poller.
+        #[must_use]
+        pub fn epoll_fd(&self) -> c_int {
+            self.0.as_raw_fd()
+        }
+        /// `Selector::add_read_event`.
+        pub fn add_read(&self, fd: c_int, token: u64) -> std::io::Result<()> {
+            self.0.add_read_event(fd, token)
+        }
+        /// `Selector::add_write_event`.
+        pub fn add_write(&self, fd: c_int, token: u64) -> std::io::Result<()> {
+            self.0.add_write_event(fd, token)
+        }
+        /// `Selector::del_read_event`.
+        pub fn del_read(&self, fd: c_int) -> std::io::Result<()> {
+            self.0.del_read_event(fd)
+        }
+        /// `Selector::del_write_event`.
+        pub fn del_write(&self, fd: c_int) -> std::io::Result<()> {
+            self.0.del_write_event(fd)
+        }
+        /// `Selector::del_event`.
+        pub fn del(&self, fd: c_int) -> std::io::Result<()> {
+            self.0.del_event(fd)
+        }
+        /// `Selector::select`, returns (token, readable, writable) per event.
+        pub fn select(&self, timeout: Duration) -> std::io::Result<Vec<(u64, bool, bool)>> {
+            let mut events = Events::with_capacity(64);
+            self.0.select(&mut events, Some(timeout))?;
+            Ok(events
+                .iterator()
+                .map(|e| (e.get_token(), e.readable(), e.writable()))
+                .collect())
+        }
+    }
+}
+
 static INSTANCE: OnceCell<EventLoops> = OnceCell::new();
 
 /// The manager for `EventLoop`.
